@@ -186,6 +186,13 @@ def generate(write: bool = True) -> Dict[str, Any]:
         report.update(pytrans.generate(write=write))
     except Exception:  # the translator must never break the run
         pass
+    # row-level translation of environment code (get_action_mask / _step) → Generated/<Env>Row.lean
+    try:
+        import rowtrans
+
+        report.update(rowtrans.generate(write=write))
+    except Exception:
+        pass
     return report
 
 
